@@ -272,11 +272,10 @@ def check_tree_memo(run, program, method, slot, cls_name, rule_prefix="F-CACHE")
                 compared |= involved
         if isinstance(n, ast.If):
             # a parameter used bare in the rebuild test forces a rebuild
-            t = n.test
-            vals = t.values if isinstance(t, ast.BoolOp) else [t]
-            for v in vals:
-                if isinstance(v, ast.UnaryOp) and isinstance(v.op, ast.Not):
-                    v = v.operand      # `not reconstruct` in a reuse test is the same dependence as `reconstruct` in a rebuild test
+            # a parameter that is a boolean atom of the rebuild/reuse test (at any nesting of not/and/or: `reconstruct`, `not reconstruct`,
+            # `not (cached is not None and not reconstruct and ...)`) decides between building and reusing
+            from ..flow import bool_atoms
+            for v in bool_atoms(n.test):
                 if isinstance(v, ast.Name) and v.id in params:
                     forcing.add(v.id)
     run.stats.setdefault("memo_tables", {})[method] = {"P": sorted(P), "K": sorted(compared | forcing)}
